@@ -294,6 +294,15 @@ func (x *Exec) constVal(c *ssa.Const) Value {
 			if !ok {
 				panic(engineErr("float const %s", c.Value))
 			}
+			// the compiled code holds the nearest float64 (float32), not the exact decimal
+			if u.Kind() == types.Float32 {
+				f := new(big.Float).SetPrec(24).SetMode(big.ToNearestEven).SetRat(r)
+				if rr, _ := f.Rat(nil); rr != nil {
+					r = rr
+				}
+			} else {
+				r = roundToFloat64(r)
+			}
 			return Scalar{realLitRat(r), t}
 		case u.Info()&types.IsString != 0:
 			return Scalar{x.sym.strConst(constant.StringVal(c.Value)), t}
@@ -576,6 +585,11 @@ func (x *Exec) debugRef(st *State, fr *Frame, in *ssa.DebugRef) {
 			return
 		}
 	}
+	if old, ok := fr.env[id.Name]; ok && old.isAddr && !in.IsAddr {
+		// the variable lives in a heap cell (captured / address taken): value snapshots at single reads
+		// must not replace the address binding
+		return
+	}
 	fr.env[id.Name] = envEntry{v: v, isAddr: in.IsAddr}
 }
 
@@ -699,7 +713,7 @@ func (x *Exec) loopHeader(st *State, fr *Frame, h *ssa.BasicBlock, ord int, phis
 	if fr.fn != x.root {
 		kindPrefix = fmt.Sprintf("%s.loop%d", fname, ord)
 	}
-	sc := x.specCtxFor(st, fr, nil)
+	sc := x.specCtxFor(st, fr, fr.pre)
 	if fr.loopSeen[h] {
 		// back edge: invariant must be re-established; path ends
 		if spec != nil {
@@ -707,7 +721,7 @@ func (x *Exec) loopHeader(st *State, fr *Frame, h *ssa.BasicBlock, ord int, phis
 				x.assert(st, x.oblName(kindPrefix+"/step", i+1, inv.Label), "invariant-step", inv.Text, inv.Src, x.evalBool(sc, inv.Expr), true)
 			}
 			if len(spec.IterEnsures) > 0 {
-				isc := x.specCtxFor(st, fr, nil)
+				isc := x.specCtxFor(st, fr, fr.pre)
 				isc.evFrom = fr.loopEv[h]
 				isc.head = fr.loopSnap[h]
 				for i, ie := range spec.IterEnsures {
@@ -750,7 +764,7 @@ func (x *Exec) loopHeader(st *State, fr *Frame, h *ssa.BasicBlock, ord int, phis
 		x.havocLoopWrites(st, fr, li.body[h])
 	}
 	if spec != nil {
-		sc2 := x.specCtxFor(st, fr, nil)
+		sc2 := x.specCtxFor(st, fr, fr.pre)
 		for _, inv := range spec.Invariants {
 			st.assume(x.evalBool(sc2, inv.Expr))
 		}
@@ -937,6 +951,11 @@ func (x *Exec) doReturn(st *State, fr *Frame, res []Value) {
 	}
 	st.frames = st.frames[:len(st.frames)-1]
 	parent := st.top()
+	if fr.fold != nil {
+		x.foldCheckNow(st, parent, fr.fold)
+		st.dead = true
+		return
+	}
 	if fr.isDefer {
 		// result of deferred call is discarded; parent continues (RunDefers re-executes or unwinding resumes)
 		return
@@ -1180,12 +1199,17 @@ func (x *Exec) callStatic(st *State, fr *Frame, resInstr ssa.Instruction, fn *ss
 		x.ld.ensureBuilt(fn)
 	}
 	rn := relName(fn)
+	if x.rootC != nil && x.rootC.Folds != nil {
+		if invs, ok := x.rootC.Folds[fn.Name()]; ok {
+			return x.foldCall(st, fr, resInstr, fn, invs, args, isDefer)
+		}
+	}
 	if x.rootC != nil && (x.rootC.Opaque[rn] || x.rootC.Opaque[fn.Name()]) {
 		return x.opaqueCall(st, fr, resInstr, rn, x.funcValue(fn, nil), "", args, fn.Signature.Results(), isDefer)
 	}
 	c := x.contractOf(fn)
 	if c != nil && !c.InlineAlways && !(fn == x.root && false) {
-		return x.callContract(st, fr, resInstr, fn, c, args, isDefer)
+		return x.callContract(st, fr, resInstr, fn, c, args, isDefer, bind)
 	}
 	if fn.Blocks != nil && (x.isModuleFunc(fn) || inlineStd[fn.String()]) {
 		depth := len(st.frames)
@@ -1266,7 +1290,7 @@ func (x *Exec) havocFor(st *State, fr *Frame, name string) {
 }
 
 // callContract: modular call. Requires are asserted, the frame is havocked, ensures assumed.
-func (x *Exec) callContract(st *State, fr *Frame, resInstr ssa.Instruction, fn *ssa.Function, c *FuncContract, args []Value, isDefer bool) []*State {
+func (x *Exec) callContract(st *State, fr *Frame, resInstr ssa.Instruction, fn *ssa.Function, c *FuncContract, args []Value, isDefer bool, bind []Value) []*State {
 	rn := relName(fn)
 	if c.Trusted {
 		x.trusted["assumed contract: "+pkgShort(c.Pkg)+"."+c.Name+" ("+c.Src+")"] = true
@@ -1280,6 +1304,15 @@ func (x *Exec) callContract(st *State, fr *Frame, resInstr ssa.Instruction, fn *
 	}
 	sc := &specCtx{x: x, st: st, vars: vars, pkg: fnPkg(fn), fn: fn, heap: st.heap, letExprs: letMap(c)}
 	sc.lets = map[string]Value{}
+	addrVars := map[string]PtrV{}
+	for i, fv := range fn.FreeVars {
+		if i < len(bind) {
+			if pv, ok := bind[i].(PtrV); ok {
+				addrVars[fv.Name()] = pv
+			}
+		}
+	}
+	sc.addrVars = addrVars
 	x.callOrd["call:"+rn]++
 	site := fmt.Sprintf("%s@%s.b%d.%d", rn, relName(fr.fn), fr.block.Index, fr.idx)
 	for i, r := range c.Requires {
@@ -1289,7 +1322,7 @@ func (x *Exec) callContract(st *State, fr *Frame, resInstr ssa.Instruction, fn *
 		}
 		x.assert(st, x.oblName("call-requires", 0, site+":"+lbl), "call-requires", r.Text, r.Src, x.evalBool(sc, r.Expr), true)
 	}
-	pre := &preSnap{heap: copyHeap(st.heap), params: vars, nEvent: len(st.events)}
+	pre := &preSnap{heap: copyHeap(st.heap), params: vars, nEvent: len(st.events), addrParams: addrVars}
 	ev := &Event{Kind: "call", Name: rn, Callee: x.funcValue(fn, nil), Args: args, Index: len(st.events)}
 	var forks []*State
 	if len(c.PanicEnsures) > 0 || (x.rootC != nil && x.rootC.MayPanic[rn]) {
@@ -1299,7 +1332,7 @@ func (x *Exec) callContract(st *State, fr *Frame, resInstr ssa.Instruction, fn *
 		pev.Panicked = true
 		other.events = append(other.events, &pev)
 		other.trail = append(other.trail, "panic in "+rn)
-		osc := &specCtx{x: x, st: other, vars: vars, pkg: fnPkg(fn), fn: fn, heap: other.heap, lets: sc.lets, old: pre, panicking: true, letExprs: letMap(c)}
+		osc := &specCtx{x: x, st: other, vars: vars, pkg: fnPkg(fn), fn: fn, heap: other.heap, lets: sc.lets, old: pre, panicking: true, letExprs: letMap(c), addrVars: addrVars}
 		x.havocItems(other, osc, c.Modifies)
 		osc.heap = other.heap
 		for _, e := range c.PanicEnsures {
@@ -1313,7 +1346,7 @@ func (x *Exec) callContract(st *State, fr *Frame, resInstr ssa.Instruction, fn *
 	x.havocItems(st, sc, c.Modifies)
 	var res []Value
 	rs := fn.Signature.Results()
-	post := &specCtx{x: x, st: st, vars: map[string]Value{}, pkg: fnPkg(fn), fn: fn, heap: st.heap, lets: sc.lets, old: pre, atExit: true, letExprs: letMap(c)}
+	post := &specCtx{x: x, st: st, vars: map[string]Value{}, pkg: fnPkg(fn), fn: fn, heap: st.heap, lets: sc.lets, old: pre, atExit: true, letExprs: letMap(c), addrVars: addrVars}
 	for k, v := range vars {
 		post.vars[k] = v
 	}
@@ -1676,10 +1709,7 @@ func (x *Exec) binop(st *State, fr *Frame, op token.Token, a, b Value, resT type
 		return Scalar{x.arithResult(st, resT, mk(SInt, "godiv", at, bt), "div"), resT}
 	case token.REM:
 		x.assumeOrCheck(st, "divzero", "integer remainder", not(eq(bt, intLit(0))))
-		if x.entails(st, and(mk(SBool, ">=", at, intLit(0)), mk(SBool, ">", bt, intLit(0)))) {
-			return Scalar{mk(SInt, "mod", at, bt), resT}
-		}
-		return Scalar{mk(SInt, "gomod", at, bt), resT}
+		return Scalar{x.modTerm(st, at, bt), resT}
 	case token.LAND:
 		return Scalar{and(at, bt), resT}
 	case token.LOR:
@@ -1895,4 +1925,124 @@ func funcValueName(v ssa.Value) string {
 		return "result" + fmt.Sprint(cv.Index)
 	}
 	return v.Name()
+}
+
+// modTerm picks the simplest encoding of Go's a % b that the path condition justifies:
+//   0 <= a < b      -> a
+//   0 <= a < 2b     -> wrapmod(a, b)   (an if-then-else; keeps quantified ring obligations linear)
+//   a >= 0, b > 0   -> (mod a b)
+//   otherwise       -> gomod (truncated remainder spelled out)
+func (x *Exec) modTerm(st *State, at, bt Term) Term {
+	nonneg := and(mk(SBool, ">=", at, intLit(0)), mk(SBool, ">", bt, intLit(0)))
+	if !x.entails(st, nonneg) {
+		return mk(SInt, "gomod", at, bt)
+	}
+	if x.entails(st, mk(SBool, "<", at, bt)) {
+		return at
+	}
+	if x.entails(st, mk(SBool, "<", at, mk(SInt, "*", intLit(2), bt))) {
+		return mk(SInt, "wrapmod", at, bt)
+	}
+	return mk(SInt, "mod", at, bt)
+}
+
+// foldCall: call of an iterator-style callee (it does nothing observable but call its function argument some
+// number of times). The caller's `fold` invariants must hold before the call and be preserved by one run of
+// the callback on arbitrary arguments; they are then assumed after the call. The cells the callback captures
+// are havocked.
+func (x *Exec) foldCall(st *State, fr *Frame, resInstr ssa.Instruction, fn *ssa.Function, invs []Clause, args []Value, isDefer bool) []*State {
+	var cb *FuncV
+	for _, a := range args {
+		if fv, ok := a.(FuncV); ok && fv.Fn != nil {
+			f := fv
+			cb = &f
+		}
+	}
+	if cb == nil {
+		panic(engineErr("fold %s: no closure argument", fn.Name()))
+	}
+	rn := relName(fn)
+	root := st.frames[0]
+	sc := x.specCtxFor(st, fr, root.pre)
+	for i, inv := range invs {
+		x.assert(st, x.oblName("fold:"+fn.Name()+"/init", i+1, inv.Label), "fold-init", inv.Text, inv.Src, x.evalBool(sc, inv.Expr), true)
+	}
+	havocCaptured := func(s *State) {
+		for _, b := range cb.Bind {
+			if p, ok := b.(PtrV); ok && !p.Elem {
+				x.store(s, p, x.freshValue(s, "fold", pointee(p)))
+			}
+		}
+	}
+	// side path: one step of the callback from an arbitrary state satisfying the invariants
+	side := st.clone()
+	sfr := side.top()
+	havocCaptured(side)
+	ssc := x.specCtxFor(side, sfr, side.frames[0].pre)
+	for _, inv := range invs {
+		side.assume(x.evalBool(ssc, inv.Expr))
+	}
+	side.trail = append(side.trail, "fold-step:"+fn.Name())
+	var cargs []Value
+	for _, p := range cb.Fn.Params {
+		v := x.freshValue(side, "foldarg_"+p.Name(), p.Type())
+		if pv, ok := v.(PtrV); ok {
+			side.assume(not(eq(pv.Base, intLit(0))))
+		}
+		cargs = append(cargs, v)
+	}
+	// run the callback inline; when it returns, check the invariants and stop
+	marker := &foldCheck{invs: invs, name: fn.Name()}
+	nf := &Frame{fn: cb.Fn, regs: map[ssa.Value]Value{}, env: map[string]envEntry{}, loopSeen: map[*ssa.BasicBlock]bool{}, depth: len(side.frames), fold: marker}
+	for i, p := range cb.Fn.Params {
+		nf.regs[p] = cargs[i]
+		nf.env[p.Name()] = envEntry{v: cargs[i]}
+	}
+	for i, fv := range cb.Fn.FreeVars {
+		nf.regs[fv] = cb.Bind[i]
+		nf.env[fv.Name()] = envEntry{v: cb.Bind[i], isAddr: true}
+	}
+	if c := x.contractOf(cb.Fn); c != nil && !c.InlineAlways {
+		// the callback has its own contract: use it for the step
+		forks := x.callContract(side, sfr, nil, cb.Fn, c, cargs, true, cb.Bind)
+		x.foldCheckNow(side, sfr, marker)
+		side.dead = true
+		for _, f := range forks {
+			f.dead = true
+		}
+	} else {
+		nf.block = cb.Fn.Blocks[0]
+		nf.isDefer = true // result discarded
+		side.frames = append(side.frames, nf)
+	}
+	// main path
+	ev := &Event{Kind: "call", Name: rn, Callee: x.funcValue(fn, nil), Args: args, Index: len(st.events)}
+	havocCaptured(st)
+	msc := x.specCtxFor(st, fr, root.pre)
+	for _, inv := range invs {
+		st.assume(x.evalBool(msc, inv.Expr))
+	}
+	var res []Value
+	rs := fn.Signature.Results()
+	for i := 0; i < rs.Len(); i++ {
+		res = append(res, x.freshValue(st, "ret_"+sanitize(rn), rs.At(i).Type()))
+	}
+	ev.Results = res
+	st.events = append(st.events, ev)
+	if !isDefer && resInstr != nil {
+		x.bindResult(st, fr, resInstr, res)
+	}
+	return []*State{side}
+}
+
+type foldCheck struct {
+	invs []Clause
+	name string
+}
+
+func (x *Exec) foldCheckNow(st *State, fr *Frame, fc *foldCheck) {
+	sc := x.specCtxFor(st, fr, st.frames[0].pre)
+	for i, inv := range fc.invs {
+		x.assert(st, x.oblName("fold:"+fc.name+"/step", i+1, inv.Label), "fold-step", inv.Text, inv.Src, x.evalBool(sc, inv.Expr), true)
+	}
 }
